@@ -86,7 +86,7 @@ def main(argv):
         meta['demo_patched_output'] = o1.strip()[-600:]
         meta['valid'] = bool(meta['tests_pass'] and rc0 == 0 and rc1 != 0)
         res = [run_check(prop, 'quick', wt, out)]
-        if res[0]['exit'] == 0 or force_thorough:
+        if (res[0]['exit'] == 0 and '--no-thorough' not in argv) or force_thorough:
             res.append(run_check(prop, 'thorough', wt, out))
         meta['checks'] = {prop: res}
         meta['detected'] = any(r['exit'] == 1 and r['violations'] for r in res)
